@@ -16,7 +16,12 @@ RULE = ('Generated chains (L=2-6, all predefined site types, heterogeneous with 
         'term_correlation_function_right/left, term_list_correlation_function_right, overlap, get_rho_segment, '
         'entanglement_entropy_segment(2), mutinf_two_site, probability_per_charge / average_charge / charge_variance and '
         'sample_measurements are compared with <bra|O|ket> of numpy kron operators incl. Jordan-Wigner strings (MPS methods ignore '
-        'psi.norm, environment methods include it, as documented). Non-trivial: chi >= 2 and an operator not proportional to the '
+        'psi.norm, environment methods include it, as documented). (infinite_window) infinite MPS (unit cells of 2-3 equal sites of 8 site '
+        'types with and without charges, a few layers of random charge-conserving two-site unitaries on a product state, chi <= 4, '
+        'any canonical form per site): expectation_value, expectation_value_multi_sites, expectation_value_term, correlation_function '
+        '(bosonic and fermionic, i<j, i=j, i>j, sites beyond the unit cell and negative), entanglement_entropy, get_rho_segment and overlap '
+        'against the reduced density matrix of a window of up to 8 sites built from the dominant eigenvectors of the dense unit-cell '
+        'transfer matrix (mixed transfer matrix for overlap). Non-trivial: chi >= 2 and an operator not proportional to the '
         'identity with a non-vanishing entry. Distinct = distinct canonical JSON spec.')
 ASSUMPTIONS = ['site operators as validated by C12', 'MPS <-> dense conversion as validated by C07']
 TOL = 1e-9
@@ -488,7 +493,182 @@ def run_rho(spec):
     return {'nontrivial': max(psi.chi) >= 2, 'classes': [which]}
 
 
+# ------------------------------------------------------------------------------------------------
+# infinite MPS on a window: reference = reduced density matrix of the window from the dominant eigenvectors of the dense
+# unit-cell transfer matrix (no canonical form assumed, nothing of tenpy's measurement code used)
+
+INF_CFGS = [0, 1, 2, 4, 7, 8, 10, 12]
+
+
+@st.composite
+def infw_specs(draw, tier):
+    L = draw(st.integers(1, 3))
+    return {'cfg': draw(st.sampled_from(INF_CFGS)), 'L': L, 'chi': draw(st.integers(2, 4)), 'seed': draw(st.integers(0, 10 ** 6)), 'start': draw(st.integers(-3, 3)),
+            'p_state': [draw(st.integers(0, 3)) for _ in range(L)], 'forms': [draw(st.sampled_from(['B', 'B', 'A', 'C', 'G', 'Th'])) for _ in range(L)],
+            'which': draw(st.sampled_from(['onsite', 'multi_sites', 'term', 'corr', 'corr', 'entropy', 'rho_segment', 'overlap']))}
+
+
+def _dominant(cell):
+    """(l, r, lambda, gap) of the transfer matrix of the list of tensors (vL, p, vR): l on the left bond, r on the right bond of the cell"""
+    T = None
+    for B in cell:
+        t = np.einsum('apc,bpd->abcd', B, B.conj())
+        t = t.reshape(t.shape[0] * t.shape[1], t.shape[2] * t.shape[3])
+        T = t if T is None else T @ t
+    chi = cell[0].shape[0]
+    wr, vr = np.linalg.eig(T)
+    k = int(np.argmax(np.abs(wr)))
+    order = np.sort(np.abs(wr))[::-1]
+    gap = 1. - (order[1] / order[0] if len(order) > 1 else 0.)
+    wl, vl = np.linalg.eig(T.T)
+    kl = int(np.argmax(np.abs(wl)))
+    return vl[:, kl].reshape(chi, chi), vr[:, k].reshape(chi, chi), wr[k], gap
+
+
+def random_imps(site, L, chi, p_state):
+    """a few layers of random two-site unitaries on an infinite product state (a bounded version of
+    MPS.from_random_unitary_evolution, which iterates until chi is reached - never, for a polarized state with charges)"""
+    from tenpy.networks.mps import MPS
+    from tenpy.algorithms.tebd import RandomUnitaryEvolution
+    Leff = max(L, 2)  # TEBD needs two sites
+    p_state = (list(p_state) * 2)[:Leff]
+    if len(set(p_state)) == 1:
+        p_state[-1] = (p_state[-1] + 1) % site.dim  # a uniformly polarized state can not be entangled by charge conserving gates
+    psi = MPS.from_product_state([site] * Leff, p_state, bc='infinite', dtype=complex, unit_cell_width=Leff)
+    eng = RandomUnitaryEvolution(psi, dict(N_steps=4, trunc_params={'chi_max': chi}))
+    eng.run()
+    psi.canonical_form()
+    return psi
+
+
+def run_infw(spec):
+    from tenpy.networks.mps import MPS
+    rng = np.random.default_rng(spec['seed'] + 5)
+    with warnings.catch_warnings():
+        warnings.simplefilter('ignore')
+        cfg = M.SITE_CFGS[spec['cfg']]
+        site = M.make_site(cfg)
+        d = site.dim
+        L = spec['L']
+        np.random.seed(spec['seed'] % (2 ** 31))
+        p_state = [k % d for k in spec['p_state']]
+        psi = random_imps(site, L, spec['chi'], p_state)
+        if max(psi.chi) < 2:
+            raise Skip()
+        L = psi.L
+        spec = dict(spec, forms=(list(spec['forms']) * 2)[:L])
+        Bs = []
+        for i in range(L):
+            B = psi.get_B(i, 'B')
+            Bs.append(np.transpose(B.to_ndarray(), [B.get_leg_index('vL'), B.get_leg_index('p'), B.get_leg_index('vR')]))
+        a = spec['start']
+        w = max(L + 1, min(2 * L + 2, int(np.floor(np.log(600) / np.log(d)))))
+        l, _, lam, gap1 = _dominant([Bs[(a + k) % L] for k in range(L)])
+        _, r, _, gap2 = _dominant([Bs[(a + w + k) % L] for k in range(L)])
+        if min(gap1, gap2) < 1e-4:
+            raise Skip()  # (nearly) degenerate transfer matrix: the infinite state is not a single pure state
+        require(abs(abs(lam) - 1.) < 1e-8, 'harness-normalization', 'dominant eigenvalue %r' % lam)
+        Th = Bs[a % L]
+        for k in range(1, w):
+            Th = np.tensordot(Th, Bs[(a + k) % L], axes=(Th.ndim - 1, 0))
+        Th = Th.reshape(Th.shape[0], d ** w, Th.shape[-1])
+        rho = np.einsum('ab,apc,bqd,cd->pq', l, Th, Th.conj(), r)
+        rho = rho / np.trace(rho)
+        require(np.linalg.norm(rho - rho.conj().T) < 1e-9, 'harness-rho-hermitian', '')
+        wsites = [site] * w
+        ev_ = lambda O: np.trace(O @ rho)
+        # the measurement functions have to work for every canonical form
+        psi.convert_form(spec['forms'])
+        which = spec['which']
+        tags = dict(fn=which, bc='infinite')
+        fermionic = cfg[0] in M.FERMIONIC
+        classes = ['inf:' + which, 'L=%d' % L] + (['fermionic'] if fermionic else []) + (['form:B'] if all(f == 'B' for f in spec['forms']) else ['form:other'])
+        win = list(range(a, a + w))
+        if which == 'onsite':
+            name = names_of(site, rng, fermionic=False)
+            got = psi.expectation_value(name, sites=win)
+            exp = [ev_(M.dense_op(wsites, {k: M.op_matrix(site, name)})) for k in range(w)]
+            require(np.allclose(got, exp, atol=TOL), 'expectation_value', '%s on sites %s: %s vs %s' % (name, win, np.round(got, 8).tolist(), np.round(exp, 8).tolist()), **tags)
+            got0 = psi.expectation_value(name)  # default: the sites of one unit cell
+            ref0 = {i % L: e for i, e in zip(win, exp)}
+            require(np.allclose(got0, [ref0[i] for i in range(L)], atol=TOL), 'expectation_value', 'default sites: %s' % np.round(got0, 8).tolist(), default_sites=True, **tags)
+        elif which == 'multi_sites':
+            n = int(rng.integers(1, min(4, w) + 1))
+            k0 = int(rng.integers(0, w - n + 1))
+            names = [names_of(site, rng, False) for _ in range(n)]
+            got = psi.expectation_value_multi_sites(names, a + k0)
+            exp = ev_(M.dense_op(wsites, {k0 + k: M.op_matrix(site, names[k]) for k in range(n)}))
+            require(abs(got - exp) < TOL, 'expectation_value_multi_sites', '%s at %d: %s vs %s' % (names, a + k0, got, exp), **tags)
+        elif which == 'term':
+            n = int(rng.integers(1, 5))
+            term = [(names_of(site, rng), int(rng.integers(0, w))) for _ in range(n)]
+            nf = sum(site.op_needs_JW(nm) for nm, _ in term)
+            if nf % 2:
+                term.append((names_of(site, rng, True), int(rng.integers(0, w))))
+            got = psi.expectation_value_term([(nm, a + k) for nm, k in term])
+            exp = ev_(M.jw_term(wsites, term))
+            require(abs(got - exp) < TOL, 'expectation_value_term', 'term %s (window starts at %d): %s vs %s' % (term, a, got, exp), **tags)
+            classes.append('term-fermionic' if nf else 'term-bosonic')
+        elif which == 'corr':
+            ferm = fermionic and bool(rng.integers(0, 2))
+            o1, o2 = names_of(site, rng, ferm), names_of(site, rng, ferm)
+            s1 = sorted(rng.permutation(w)[:int(rng.integers(1, w + 1))].tolist())
+            s2 = sorted(rng.permutation(w)[:int(rng.integers(1, w + 1))].tolist())
+            got = psi.correlation_function(o1, o2, sites1=[a + k for k in s1], sites2=[a + k for k in s2])
+            exp = np.array([[ev_(M.jw_term(wsites, [(o1, i), (o2, j)])) for j in s2] for i in s1])
+            require(np.allclose(got, exp, atol=TOL), 'correlation_function', '%s %s sites1 %s sites2 %s: max dev %r' % (o1, o2, s1, s2, float(np.max(np.abs(got - exp)))),
+                    fermionic=ferm, **tags)
+            classes.append('corr-fermionic' if ferm else 'corr-bosonic')
+        elif which == 'entropy':
+            got = psi.entanglement_entropy()
+            exp = []
+            for b in range(L):
+                lb, rb, _, g = _dominant([Bs[(b + k) % L] for k in range(L)])
+                if g < 1e-4:
+                    raise Skip()
+                sp = np.linalg.eigvals(lb.T @ rb)
+                sp = np.real(sp / np.sum(sp))
+                sp = sp[sp > 1e-15]
+                exp.append(float(-np.sum(sp * np.log(sp))))
+            require(np.allclose(got, exp, atol=1e-7), 'entanglement_entropy', '%s vs %s' % (np.round(got, 8).tolist(), np.round(exp, 8).tolist()), **tags)
+        elif which == 'rho_segment':
+            n = int(rng.integers(1, min(3, w) + 1))
+            seg = sorted(rng.permutation(w)[:n].tolist())
+            R = psi.get_rho_segment([a + k for k in seg])
+            lab = ['p%d' % k for k in range(n)] + ['p%d*' % k for k in range(n)]
+            got = np.transpose(R.to_ndarray(), [R.get_leg_index(x) for x in lab]).reshape(d ** n, d ** n)
+            t = rho.reshape([d] * (2 * w))
+            keep = seg
+            other = [k for k in range(w) if k not in keep]
+            t = np.transpose(t, keep + other + [w + k for k in keep] + [w + k for k in other]).reshape(d ** n, d ** (w - n), d ** n, d ** (w - n))
+            exp = np.einsum('aibi->ab', t)
+            require(np.allclose(got, exp, atol=TOL), 'get_rho_segment', 'segment %s (window starts at %d): max dev %r' % (seg, a, float(np.max(np.abs(got - exp)))),
+                    consecutive=bool(seg == list(range(seg[0], seg[0] + n))), **tags)
+        elif which == 'overlap':
+            np.random.seed((spec['seed'] + 1) % (2 ** 31))
+            phi = random_imps(site, L, spec['chi'], p_state)
+            Cs = []
+            for i in range(L):
+                B = phi.get_B(i, 'B')
+                Cs.append(np.transpose(B.to_ndarray(), [B.get_leg_index('vL'), B.get_leg_index('p'), B.get_leg_index('vR')]))
+            T = None
+            for B, C in zip(Bs, Cs):
+                t = np.einsum('apc,bpd->abcd', C, B.conj())  # <psi|phi>: bra psi conjugated
+                t = t.reshape(t.shape[0] * t.shape[1], t.shape[2] * t.shape[3])
+                T = t if T is None else T @ t
+            ev2 = np.linalg.eigvals(T)
+            ev2 = ev2[np.argsort(-np.abs(ev2))]
+            if len(ev2) > 1 and abs(ev2[1]) > (1 - 1e-6) * abs(ev2[0]):
+                raise Skip()  # dominant eigenvalue not unique in modulus
+            got = psi.overlap(phi)
+            require(abs(got - ev2[0]) < 1e-7, 'overlap-infinite', 'psi.overlap(phi) = %r, dominant eigenvalue of the mixed transfer matrix %r' % (got, ev2[0]), **tags)
+            got1 = psi.overlap(psi)
+            require(abs(got1 - 1.) < 1e-8, 'overlap-infinite', 'psi.overlap(psi) = %r' % got1, same=True, **tags)
+    return {'nontrivial': True, 'classes': classes}
+
+
 SUBCHECKS = [
+    Sub('infinite_window', infw_specs, run_infw, quick=400, thorough=20000),
     Sub('expectation_values', ev_specs, run_ev, quick=1600, thorough=80000),
     Sub('rho_charges_sampling', rho_specs, run_rho, quick=800, thorough=40000),
 ]
